@@ -552,8 +552,8 @@ func nativeReplay(file string) (bool, string) {
 	// apply the environment cut points natively (see nativeCuts)
 	for ci, cut := range nativeCuts {
 		src, err := os.ReadFile(filepath.Join(repo, cut.File))
-		if err != nil || !strings.Contains(string(src), cut.Old) {
-			return false, "native cut point not found in " + cut.File
+		if err != nil {
+			return false, "native cut: cannot read " + cut.File
 		}
 		f := filepath.Join(scratch, fmt.Sprintf("cut%d.go", ci))
 		cnt := 1
